@@ -409,6 +409,9 @@ impl<T> Future for ReceiveFuture<'_, T> {
                     if this.is_stream {
                         #[cfg(kanal_verif)]
                         crate::verif::rt::probe(crate::verif::rt::probe::STREAM_REARM);
+                        // start the next receive with a fresh signal: the old one still
+                        // carries the completed state (and waker) of the previous receive
+                        this.sig = Signal::new_async();
                         this.state = FutureState::Zero;
                         continue;
                     }
